@@ -21,6 +21,7 @@ import (
 
 	kit "github.com/gotid/god/internal/verifkit"
 	"github.com/gotid/god/lib/syncx"
+	"github.com/gotid/god/lib/timex"
 )
 
 type c18 struct {
@@ -227,7 +228,7 @@ func (c *c18) timeoutLimit() {
 
 func (c *c18) pool() {
 	n := 1 + c.rng.Intn(3)
-	c.ev(kit.M{"e": "reset", "kind": "pool", "n": n})
+	c.ev(kit.M{"e": "reset", "kind": "pool", "n": n, "age": 0})
 	pool := syncx.NewPool(n, func() any {
 		r := c.uniq()
 		c.ev(kit.M{"e": "create", "r": r})
@@ -241,13 +242,92 @@ func (c *c18) pool() {
 			jitter(r)
 			c.ev(kit.M{"e": "inv", "p": p, "op": "get"})
 			x := pool.Get().(int)
-			c.ev(kit.M{"e": "ret", "p": p, "op": "get", "r": x})
+			c.ev(kit.M{"e": "ret", "p": p, "op": "get", "r": x, "now": 0})
 			jitter(r)
-			c.ev(kit.M{"e": "inv", "p": p, "op": "put", "r": x})
+			c.ev(kit.M{"e": "inv", "p": p, "op": "put", "r": x, "now": 0})
 			pool.Put(x)
 			c.ev(kit.M{"e": "ret", "p": p, "op": "put"})
 		}
 	})
+}
+
+// poolAging: one goroutine, virtual clock: resources idle beyond the maximum age must be
+// destroyed, never handed out; younger ones may be reused.
+func (c *c18) poolAging() {
+	n := 1 + c.rng.Intn(3)
+	age := []int{10, 50, 1000}[c.rng.Intn(3)]
+	c.ev(kit.M{"e": "reset", "kind": "pool", "n": n, "age": age})
+	clk := kit.NewClock()
+	base := clk.Now()
+	now := func() int { return int((clk.Now() - base) / time.Millisecond) }
+	timex.SetVerifClock(clk.Now)
+	defer timex.SetVerifClock(nil)
+	pool := syncx.NewPool(n, func() any {
+		r := c.uniq()
+		c.ev(kit.M{"e": "create", "r": r})
+		return r
+	}, func(x any) {
+		c.ev(kit.M{"e": "destroy", "r": x.(int), "now": now()})
+	}, syncx.WithMaxAge(time.Duration(age)*time.Millisecond))
+	var held []int
+	for i := 0; i < 6+c.rng.Intn(10); i++ {
+		switch k := c.rng.Intn(4); {
+		case k == 0: // time passes: below, at and beyond the maximum age
+			d := []int{0, 1, age - 1, age, age + 1, 3 * age}[c.rng.Intn(6)]
+			clk.Advance(time.Duration(d) * time.Millisecond)
+		case k == 1 && len(held) > 0:
+			j := c.rng.Intn(len(held))
+			x := held[j]
+			held = append(held[:j], held[j+1:]...)
+			c.ev(kit.M{"e": "inv", "p": 1, "op": "put", "r": x, "now": now()})
+			pool.Put(x)
+			c.ev(kit.M{"e": "ret", "p": 1, "op": "put"})
+		case len(held) < n: // a Get that cannot block
+			c.ev(kit.M{"e": "inv", "p": 1, "op": "get"})
+			x := pool.Get().(int)
+			c.ev(kit.M{"e": "ret", "p": 1, "op": "get", "r": x, "now": now()})
+			held = append(held, x)
+		}
+	}
+}
+
+// immutableResource: sequential Gets under the virtual clock with a scripted fetch.
+func (c *c18) immutableResource() {
+	every := []int{100, 1000}[c.rng.Intn(2)]
+	c.ev(kit.M{"e": "reset", "kind": "ir", "every": every})
+	clk := kit.NewClock()
+	base := clk.Now()
+	now := func() int { return int((clk.Now() - base) / time.Millisecond) }
+	timex.SetVerifClock(clk.Now)
+	defer timex.SetVerifClock(nil)
+	failures := c.rng.Intn(4)
+	ir := syncx.NewImmutableResource(func() (any, error) {
+		if failures > 0 {
+			failures--
+			v := -c.uniq()
+			c.ev(kit.M{"e": "fetch", "p": 1, "v": v})
+			return nil, fmt.Errorf("e%d", -v)
+		}
+		v := c.uniq()
+		c.ev(kit.M{"e": "fetch", "p": 1, "v": v})
+		return v, nil
+	}, syncx.WithRefreshIntervalOnFailure(time.Duration(every)*time.Millisecond))
+	for i := 0; i < 5+c.rng.Intn(8); i++ {
+		if c.rng.Intn(2) == 0 {
+			d := []int{0, 1, every - 1, every, every + 1, 2 * every}[c.rng.Intn(6)]
+			clk.Advance(time.Duration(d) * time.Millisecond)
+		}
+		c.ev(kit.M{"e": "inv", "p": 1, "now": now()})
+		val, err := ir.Get()
+		v := 0
+		if err != nil {
+			fmt.Sscanf(err.Error(), "e%d", &v)
+			v = -v
+		} else {
+			v = val.(int)
+		}
+		c.ev(kit.M{"e": "ret", "p": 1, "v": v})
+	}
 }
 
 func (c *c18) refResource() {
@@ -463,6 +543,7 @@ func TestVerifC18Trace(t *testing.T) {
 		{"pool", c.pool}, {"ref", c.refResource}, {"rm", c.resourceManager}, {"mr", c.managedResource},
 		{"spin", func() { c.spin(false) }}, {"barrier", func() { c.spin(true) }},
 		{"og", c.onceGuard}, {"dc", c.doneChan}, {"once", c.once},
+		{"poolage", c.poolAging}, {"ir", c.immutableResource},
 	}
 	for i := 0; i < rounds; i++ {
 		for _, s := range scen {
